@@ -1,24 +1,71 @@
 ------------------------------ MODULE Resources ------------------------------
 (* C19: descriptors, mappings and goroutines of simpledb (db.go Open/Close, flush.go, compaction.go, sstable_manager.go) and of the
-   table / RecordIO readers.  handles: one WAL descriptor while open, one data-file mapping per live table; a flush adds one,
-   a compaction of k tables closes k and opens one, Close releases everything and joins the flusher and the compactor.
+   table / RecordIO readers.  Handles: one WAL descriptor while open, one data-file mapping per live table; a flush adds one,
+   a compaction of n tables closes n and opens one.  Close is NOT atomic (db.go Close): under the database lock it flushes the last
+   memstore and joins the flusher (CloseLock, CloseFlusherJoined); then, outside the lock, it stops and joins the compactor (CloseJoin) - a compaction
+   that is between merge and reflect at that moment still reflects, i.e. closes its inputs and opens the merged table - and only then
+   releases the WAL and whatever tables are live by now (CloseRelease).  ReleaseBeforeJoin = TRUE is the defective order (release
+   inside the locked section): the table a late reflect opens is released by nobody.
    Library objects: a reader owns its mapping and every scanner created from it until Close.                                  *)
 EXTENDS Integers, Sequences, FiniteSets, TLC
-CONSTANTS MaxTables, MaxCycles, K
-VARIABLES phase, tables, handles, threads, cycles
-vars == <<phase, tables, handles, threads, cycles>>
-Init == phase = "closed" /\ tables = 0 /\ handles = 0 /\ threads = 0 /\ cycles = 0
-Open(bg) == /\ phase = "closed" /\ phase' = "open" /\ handles' = tables + 1 /\ threads' = (IF bg THEN 2 ELSE 1) /\ UNCHANGED <<tables, cycles>>
-Flush == /\ phase = "open" /\ tables < MaxTables /\ cycles < MaxCycles
-         /\ tables' = tables + 1 /\ handles' = handles + 1 /\ cycles' = cycles + 1 /\ UNCHANGED <<phase, threads>>
-Compact(n) == /\ phase = "open" /\ n \in 1..tables /\ cycles < MaxCycles
-              /\ tables' = tables - n + 1 /\ handles' = handles - n + 1 /\ cycles' = cycles + 1 /\ UNCHANGED <<phase, threads>>
-Close == /\ phase = "open" /\ phase' = "closed" /\ handles' = 0 /\ threads' = 0 /\ UNCHANGED <<tables, cycles>>
-Next == \E b \in BOOLEAN : Open(b) \/ Flush \/ (\E n \in 1..MaxTables : Compact(n)) \/ Close
+CONSTANTS MaxTables, MaxCycles, K, ReleaseBeforeJoin
+VARIABLES phase,     \* "closed" | "open" | "locking" (Close holds the lock) | "closing" (flusher joined, compactor not yet) | "joined"
+          tables,    \* table directories on disk
+          tableH,    \* open table readers (one mapping each)
+          walH,      \* WAL descriptor
+          flusher,   \* flusher goroutine alive
+          compactor, \* "none" | "idle" | "merging"  (background compactor goroutine)
+          csel,      \* number of tables the running compaction merges
+          released,  \* Close already released the handles
+          cycles
+vars == <<phase, tables, tableH, walH, flusher, compactor, csel, released, cycles>>
+handles == tableH + walH
+threads == (IF flusher THEN 1 ELSE 0) + (IF compactor # "none" THEN 1 ELSE 0)
+Init == /\ phase = "closed" /\ tables = 0 /\ tableH = 0 /\ walH = 0 /\ flusher = FALSE /\ compactor = "none" /\ csel = 0
+        /\ released = FALSE /\ cycles = 0
+Open(bg) == /\ phase = "closed" /\ phase' = "open" /\ tableH' = tables /\ walH' = 1 /\ flusher' = TRUE
+            /\ compactor' = (IF bg THEN "idle" ELSE "none") /\ released' = FALSE /\ UNCHANGED <<tables, csel, cycles>>
+Flush == /\ phase \in {"open", "locking"} /\ flusher /\ tables < MaxTables /\ cycles < MaxCycles
+         /\ tables' = tables + 1 /\ tableH' = tableH + 1 /\ cycles' = cycles + 1
+         /\ UNCHANGED <<phase, walH, flusher, compactor, csel, released>>
+\* background compactor: select + merge (no handle of the database changes), then reflect under the database lock
+CompStart(n) == /\ compactor = "idle" /\ phase \in {"open", "locking", "closing"} /\ n \in 2..tables /\ cycles < MaxCycles
+                /\ compactor' = "merging" /\ csel' = n /\ cycles' = cycles + 1
+                /\ UNCHANGED <<phase, tables, tableH, walH, flusher, released>>
+\* (not while Close holds the lock)
+CompReflect == /\ compactor = "merging" /\ phase \in {"open", "closing"}
+               /\ tables' = tables - csel + 1
+               /\ tableH' = (IF released THEN tableH + 1 ELSE tableH - csel + 1)   \* closing a closed reader releases nothing
+               /\ compactor' = "idle" /\ csel' = 0
+               /\ UNCHANGED <<phase, walH, flusher, released, cycles>>
+\* manual compaction cycle (no compactor goroutine)
+Compact(n) == /\ phase = "open" /\ compactor = "none" /\ n \in 2..tables /\ cycles < MaxCycles
+              /\ tables' = tables - n + 1 /\ tableH' = tableH - n + 1 /\ cycles' = cycles + 1
+              /\ UNCHANGED <<phase, walH, flusher, compactor, csel, released>>
+\* Close, step 1: take the database lock and set the closed flag; the last memstore is handed to the flusher (Flush stays enabled)
+CloseLock == /\ phase = "open" /\ phase' = "locking"
+             /\ UNCHANGED <<tables, tableH, walH, flusher, compactor, csel, released, cycles>>
+\* Close, step 2: flusher joined, lock released
+CloseFlusherJoined ==
+    /\ phase = "locking" /\ phase' = "closing" /\ flusher' = FALSE
+    /\ IF ReleaseBeforeJoin THEN tableH' = 0 /\ walH' = 0 /\ released' = TRUE ELSE UNCHANGED <<tableH, walH, released>>
+    /\ UNCHANGED <<tables, compactor, csel, cycles>>
+\* the compactor loop looks at its stop channel only between two cycles
+CloseJoin == /\ phase = "closing" /\ compactor \in {"none", "idle"} /\ compactor' = "none" /\ phase' = "joined"
+             /\ UNCHANGED <<tables, tableH, walH, flusher, csel, released, cycles>>
+CloseRelease == /\ phase = "joined" /\ phase' = "closed"
+                /\ IF released THEN UNCHANGED <<tableH, walH, released>> ELSE tableH' = 0 /\ walH' = 0 /\ released' = TRUE
+                /\ UNCHANGED <<tables, flusher, compactor, csel, cycles>>
+Next == \/ \E b \in BOOLEAN : Open(b)
+        \/ Flush \/ CompReflect \/ CloseLock \/ CloseFlusherJoined \/ CloseJoin \/ CloseRelease
+        \/ \E n \in 2..MaxTables : CompStart(n) \/ Compact(n)
 Spec == Init /\ [][Next]_vars
-HandlesBounded == phase = "open" => handles <= tables + K
+HandlesBounded == phase \in {"open", "locking"} => handles <= tables + K
 ClosedReleasesAll == phase = "closed" => handles = 0 /\ threads = 0
 NoGrowthWithCycles == handles <= MaxTables + K
+\* Close always terminates: from every closing state the closed state is reachable without client steps (checked as absence of
+\* a stuck state: "closing" with a compactor that can neither reflect nor be joined does not exist)
+CloseCanProceed == phase = "closing" => (ENABLED CloseJoin \/ ENABLED CompReflect)
 \* judged on observations of the real process (shared with ResTrace)
 ObsOk(open, ntables, fds, maps, gor, k) == IF open THEN fds + maps <= ntables + k /\ gor <= 2 ELSE fds = 0 /\ maps = 0 /\ gor = 0
 =============================================================================
